@@ -68,39 +68,52 @@ REQUIRED = ["op:sub_location", "op:prepeptide_segment", "op:prepeptide_roundtrip
 # known deviations of the current tree (narrow, mechanism-keyed)
 # --------------------------------------------------------------------------
 
-_SUB_CLAUSES = {"sub-crash", "sub-strand", "sub-inside-gene", "sub-three-bases-per-residue",
-                "sub-extract-equals-gene-slice", "sub-translates-to-stretch"}
-
-
 @findings.classifier("c09_sub_location_gene_bridges_origin")
 def _c09_bridging(clause, facts):
     """ protein->DNA mapping sorts the gene's parts by start coordinate, which is not reading order
-        when the gene bridges the origin. Must not hide: any wrong sub-location on a gene that does
-        not bridge the origin (any strand, exon structure, codon_start). """
-    return (clause in _SUB_CLAUSES or clause in ("prepeptide-roundtrip", "annotation-crash")) \
-        and facts.get("gene_bridges_origin") is True
+        when the gene bridges the origin: a well-formed location of the right length inside the gene,
+        but over the wrong bases. Must not hide: any wrong sub-location on a gene that does not bridge
+        the origin (any strand, exon structure, codon_start), and on bridging genes any crash, wrong
+        strand, wrong length or location outside the gene. """
+    return clause == "sub-extract-equals-gene-slice" and facts.get("gene_bridges_origin") is True
+
+
+@findings.classifier("c09_codon_start_on_origin_bridging_gene")
+def _c09_frameshift_bridging(clause, facts):
+    """ _adjust_location_by_offset asserts that the first part holds the extreme coordinate of the
+        location, false for every origin-bridging location: reading such a gene with codon_start 2/3
+        dies with AssertionError. Must not hide: rejection of any other gene, or any other error. """
+    return (clause == "gene-rejected" and facts.get("exception") == "AssertionError"
+            and facts.get("gene_bridges_origin") is True and facts.get("codon_start") in (2, 3))
 
 
 @findings.classifier("c09_tta_marker_multipart_gene")
 def _c09_tta(clause, facts):
     """ TTA markers are placed at location.start + offset (or end - offset - 3): right only while the
         codon lies in the first part of the gene. Must not hide: a wrong marker on a single-part gene,
-        or on a codon lying wholly in the first part of a multi-part gene that does not bridge the origin. """
-    return clause in ("tta-marker-on-codon", "tta-crash") and facts.get("gene_parts", 1) > 1 and (
+        or on a codon lying wholly in the first part of a multi-part gene that does not bridge the origin,
+        or a missing/extra marker. """
+    return clause == "tta-marker-on-codon" and facts.get("gene_parts", 1) > 1 and (
         facts.get("codon_part_index", 0) > 0 or facts.get("codon_split") is True
         or facts.get("gene_bridges_origin") is True)
 
 
 @findings.classifier("c09_prepeptide_tail_shifted_by_stop_codon")
 def _c09_prepeptide_stop(clause, facts):
-    """ Prepeptide.to_biopython counts segments back from len(location)//3, which includes the stop
-        codon: with a tail, core and tail are shifted/extended by one codon. Must not hide: any wrong
-        leader, any wrong segment of a gene without stop codon, or a core/tail off by anything but
-        exactly the trailing stop codon. """
-    return (clause in ("sub-three-bases-per-residue", "sub-extract-equals-gene-slice")
-            and facts.get("via") in ("prepeptide:core", "prepeptide:tail")
-            and facts.get("gene_has_stop") is True and facts.get("has_tail") is True
-            and facts.get("off_by_stop_codon") is True)
+    """ Prepeptide.to_biopython counts core end and tail back from len(location)//3, which includes
+        the stop codon: with a tail, the core is one codon too long and the tail is shifted onto the
+        stop codon. Must not hide: any wrong leader, any wrong segment of a gene without stop codon or
+        of a prepeptide without tail, or a core/tail off by anything but exactly that one codon.
+        (On an origin-bridging gene the positions are additionally scrambled by the mapping defect, so
+        only the length of the core can be recognised there.) """
+    if not (facts.get("gene_has_stop") is True and facts.get("has_tail") is True):
+        return False
+    if clause == "sub-three-bases-per-residue" and facts.get("via") == "prepeptide:core":
+        return facts.get("off_by_stop_codon") is True or (
+            facts.get("gene_bridges_origin") is True and facts.get("extra_codons") == 1)
+    if clause == "sub-extract-equals-gene-slice" and facts.get("via") == "prepeptide:tail":
+        return facts.get("off_by_stop_codon") is True
+    return False
 
 
 # --------------------------------------------------------------------------
@@ -167,12 +180,12 @@ def check_annotation(ctx, gene: Gene, location, start: int, end: int, via: str, 
     facts = dict(gene.facts, via=via, range=[start, end], got=str(location))
     if extra_facts:
         facts.update(extra_facts)
-    expected_positions = gene.positions[3 * start:3 * end]
     got_positions = list(location)
-    if allow_stop_extension and gene.case["stop"] and end == gene.n - 1 \
-            and got_positions == gene.positions[3 * start:3 * gene.n]:
+    if allow_stop_extension and gene.case["stop"] and end == gene.n - 1 and len(location) == 3 * (gene.n - start):
+        # the last segment of a prepeptide runs to the end of the gene, over the stop codon, like the CDS itself
         ctx.count("unspecified:last-prepeptide-segment-includes-stop-codon")
-        return True
+        end = gene.n
+    expected_positions = gene.positions[3 * start:3 * end]
     if got_positions != expected_positions and "has_tail" in facts:
         # how far off: exactly the trailing stop codon (shifted or extended by it)?
         facts["off_by_stop_codon"] = bool(gene.case["stop"]) and got_positions in (
@@ -185,7 +198,8 @@ def check_annotation(ctx, gene: Gene, location, start: int, end: int, via: str, 
         ctx.violate("sub-inside-gene", facts, case)
         return False
     if len(location) != 3 * (end - start):
-        ctx.violate("sub-three-bases-per-residue", dict(facts, got_length=len(location)), case)
+        ctx.violate("sub-three-bases-per-residue",
+                    dict(facts, got_length=len(location), extra_codons=(len(location) - 3 * (end - start)) / 3), case)
         return False
     got_nt = str(location.extract(gene.seq)).upper()
     if got_nt != gene.nt[3 * start:3 * end] or got_positions != expected_positions:
@@ -218,6 +232,13 @@ def drive_frameshift(ctx, gene: Gene, case):
     facts = dict(gene.facts, via="from_biopython")
     if gene.positions != ref:
         ctx.violate("frameshift-location", facts, case)
+        return False
+    # writing the gene out again must undo the shift exactly
+    out = gene.cds.to_biopython()[0]
+    raw = make_location([tuple(p) for p in case["parts"]], case["strand"])
+    if list(out.location) != list(raw) or (case["codon_start"] != 1
+                                           and out.qualifiers.get("codon_start") != [str(case["codon_start"])]):
+        ctx.violate("frameshift-undo", dict(facts, written=str(out.location), read=str(raw)), case)
         return False
     expected = _translate(gene.nt)
     if case["stop"]:
@@ -438,6 +459,8 @@ def run_case(ctx, case, rng, database):
         gene = Gene(case)
     except Exception as err:  # pylint: disable=broad-except
         ctx.count("op:frameshift_location")
+        ctx.count("rejected-genes")
+        ctx.case((case["L"], case["strand"], tuple(map(tuple, case["parts"])), case["codon_start"]), nontrivial=True)
         ctx.violate("gene-rejected", {"exception": type(err).__name__, "message": str(err)[:200],
                                       "strand": case["strand"], "gene_parts": len(case["parts"]),
                                       "gene_bridges_origin": _descends(case["parts"]),
